@@ -2,7 +2,6 @@ package c12
 
 import (
 	"fmt"
-	"os"
 	"math"
 	"math/big"
 
@@ -572,9 +571,6 @@ func (b *bgvCtx) program(r *eng.Rand, pi int) {
 				bound := new(big.Float).SetFloat64(eBound)
 				meas := new(big.Float).SetInt(st.Max)
 				c.Max("max_noise_over_bound_log2_x10_plus1000_bgv", 1000+int64(10*(st.MaxLog2-math.Log2(eBound))))
-				if os.Getenv("C12_DEBUG") != "" && st.MaxLog2-math.Log2(eBound) > -8 {
-					fmt.Fprintf(os.Stderr, "TIGHT %.1f vs %.1f: %+v\n", st.MaxLog2, math.Log2(eBound), desc)
-				}
 				c.Eval(1)
 				if meas.Cmp(bound) > 0 {
 					fail("noise-above-worst-case", fmt.Sprintf("output %d: measured 2^%.1f, worst-case bound 2^%.1f", i, st.MaxLog2, math.Log2(eBound)))
